@@ -263,7 +263,7 @@ def results_for_property(prop: str, tier: str, only: Optional[str] = None,
 def write_ledger():
     """Record the obligations discharged on the current tree (run once on the pinned tree)."""
     contracts = load_all_contracts()
-    targets = sorted(t for t, c in contracts.items() if not c.inline)
+    targets = sorted(t for t, c in contracts.items() if not c.inline and c.tier != 'none')
     raw = run_targets(targets, 'quick')
     discharged = []
     others = {}
